@@ -10,6 +10,7 @@ mod canon;
 mod doc;
 mod stack;
 mod c15;
+mod c04;
 
 fn main() {
     let mode = std::env::args().nth(1).unwrap_or_default();
@@ -55,6 +56,7 @@ fn dispatch(mode: &str, line: &str) -> String {
         "val" => doc::run_val(line),
         "stack" => stack::run(line),
         "c15" => c15::run(line),
+        "c04" => c04::run(line),
         _ => format!("bad-mode {mode}"),
     }
 }
